@@ -830,6 +830,12 @@ func areaCrash(r *Rng, n int, dir string) (*AreaOut, error) {
 	if err := corruptBlobsOnRealLoops(out); err != nil {
 		return nil, err
 	}
+	if err := deltaBeforeSnapshot(out); err != nil {
+		return nil, err
+	}
+	if err := ownNewestCorrupt(out); err != nil {
+		return nil, err
+	}
 	out.Cases = len(cases)
 	out.Distinct = len(nontriv)
 	for i := 0; i < 2 && i < len(cases); i++ {
